@@ -33,19 +33,23 @@ def configs(tier, rng):
 def run(tier):
     rep = Report(PID, tier, "translation_validation")
     rng = random.Random(vlib.seed())
-    enum, g = sc.rule_cases("c01")
+    enum, g = sc.rule_cases("c01", tier)
     nrand = 300 if tier == "quick" else 4000
     progs = [{"group": "random", "kind": "random", "ctx": 0, "redex": k, "body": "", "src": progen.program(rng, luau=False, max_stmts=rng.randint(6, 18))} for k in range(nrand)]
     cfgs = configs(tier, rng)
     cases, rules_of = [], {}
     per_cfg = 150 if tier == "quick" else 1200
     for ci, (label, rules, gen) in enumerate(cfgs):
+        hand = [c for c in enum if c.get("fam", "") == ""]
+        prod = [c for c in enum if c.get("fam", "") != ""]
         if label == "default" and gen == "retain_lines":
             pool = enum + progs
         elif label == "default":
-            pool = (rng.sample(enum, 800) if tier == "quick" else enum) + progs[: nrand // 2]
+            pool = (rng.sample(hand, 800) + rng.sample(prod, 300) if tier == "quick" else enum) + progs[: nrand // 2]
         else:
-            pool = rng.sample(enum + progs, min(per_cfg, len(enum) + len(progs)))
+            # every member of the generated families the rules of this configuration act on, a sample of everything else
+            mine = [c for c in sc.enum_pool(prod, rules, False, rng, other_sample=10)]
+            pool = mine + rng.sample(hand + progs, min(per_cfg, len(hand) + len(progs)))
         for pi, p in enumerate(pool):
             cid = "c%d_%d" % (ci, pi)
             cases.append({"id": cid, "src": p["src"], "rules": sc.rules_text(rules), "generator": gen, "cfg": label,
